@@ -478,6 +478,11 @@ def compare_one(ctx, spec, impl, model, indep_edges_ok=True):
         feats.append("unresolved-dependency")
     for f in feats:
         ctx.bump("feature/" + f)
+    # how often the hypotheses of build_order_safe (one version per name, no cycle in the closure) hold
+    for a in g:
+        nodes = reach_plus(g, a) | {a}
+        ok = len(set(n for n, _ in nodes)) == len(nodes) and not any(x in reach_plus(g, x) for x in nodes)
+        ctx.bump("roots/build-order-hypotheses-hold" if ok else "roots/outside-build-order-hypotheses")
     ctx.bump("products/%d" % len(spec["products"]))
     return fails
 
@@ -594,7 +599,7 @@ def run(ctx):
     ctx.check_theorems()
     specs = corpus_specs()
     ncorpus = len(specs)
-    n = ctx.size(160, 3000)
+    n = ctx.size(500, 12000)
     for _ in range(n):
         specs.append(stackgen.gen_spec(ctx.rng))
     for s in specs[ncorpus:ncorpus + 2]:
